@@ -107,7 +107,7 @@ def ambiguousB (c : Cls) (T : Table) : Bool :=
 
 /-! ### C15: the instance hypothesis on an index-built table -/
 
-def entryNames (_c : Cls) (e : Entry) : List Str := e.key :: e.aliases.filter (fun a => !a.isEmpty)
+def entryNames (c : Cls) (e : Entry) : List Str := e.key :: e.aliases.filter (fun a => !(wordsOf c a).isEmpty)
 
 def indexOK (c : Cls) (T : Table) : Bool :=
   !tableRefused c T &&
